@@ -15,6 +15,6 @@ CONSTANTS
   OrigSkip = FALSE
 VIEW TraceView
 CONSTRAINT HighWater
-INVARIANTS NoPanic LoaderAhead HashConsistent VersionsDistinct StorageMatchesJournal NameLookupCorrect GroupAssignmentCorrect Converged HashAgreement
+INVARIANTS NoPanic NameLookupCorrect GroupAssignmentCorrect Converged HashAgreement
 POSTCONDITION TraceAccepted
 CHECK_DEADLOCK FALSE
